@@ -328,11 +328,19 @@ func (p *Prelude) For(body string) string {
 		}
 	}
 	var b strings.Builder
+	var lits []string
 	for i, e := range p.entries {
 		if inc[i] {
 			b.WriteString(e.line)
 			b.WriteByte('\n')
+			if strings.HasPrefix(e.key, "const:strlit") || e.key == "const:s_empty" {
+				lits = append(lits, e.key[len("const:"):])
+			}
 		}
+	}
+	if len(lits) > 1 {
+		// string literals have pairwise different contents by construction (one constant per distinct literal)
+		b.WriteString("(assert (distinct " + strings.Join(lits, " ") + "))\n")
 	}
 	return b.String()
 }
